@@ -148,6 +148,7 @@ func specProbeID(u *udpDriver, ttl uint8) uint16 {
 //@ func (*udpDriver).SendProbe
 //@ safety C06 C05
 //@ requires[pre.nonnil]   u != nil && u.sink != nil && u.sentProbes != nil && u.config != nil && u.config.buffer != nil
+//@ requires[C10.send.open]  selb(isOpen, ref(u.sink))
 //@ requires[pre.past]     forall(k, 0, 65536, u.sentProbes[k].sendTime <= now())
 //@ ensures[C06.once]      ret0 == nil ==> !old(has(u.sentProbes, specProbeID(u, ttl))) && has(u.sentProbes, specProbeID(u, ttl)) && u.sentProbes[specProbeID(u, ttl)].ttl == ttl && u.sentProbes[specProbeID(u, ttl)].sendTime != 0
 //@ ensures[C06.others]    forall(k, 0, 65536, k != int(specProbeID(u, ttl)) ==> u.sentProbes[k] == old(u.sentProbes[k]) && has(u.sentProbes, k) == old(has(u.sentProbes, k)))
@@ -165,6 +166,7 @@ func specProbeID(u *udpDriver, ttl uint8) uint16 {
 //@ func (*udpDriver).ReceiveProbe
 //@ safety C09
 //@ requires[pre.nonnil]     u != nil && u.source != nil && u.parser != nil && u.parser.parserv4 != nil && u.parser.parserv6 != nil && u.config != nil
+//@ requires[C10.recv.open]  selb(isOpen, ref(u.source))
 //@ requires[pre.past]       forall(k, 0, 65536, u.sentProbes[k].sendTime <= now())
 //@ ensures[C09.recv.xor]    (ret0 == nil) != (ret1 == nil)
 //@ ensures[C09.recv.class]  ret1 != nil && !chain(ret1, *common.ReceiveProbeNoPktError) && !chain(ret1, *common.BadPacketError) ==> ioFail
